@@ -1,5 +1,9 @@
 import DirectVerif.Lemmas.C04Loops
 import DirectVerif.Lemmas.C04Interior
+import DirectVerif.Lemmas.C04Poisson
+import DirectVerif.Model.C04PoissonGen
+import DirectVerif.Model.C04Tables
+import DirectVerif.Lemmas.C04Circus
 /-!
 # C04 — every mask generator returns a boolean mask of the documented geometry
 
@@ -267,6 +271,29 @@ theorem assembly_table_sound (tbl : List (String × BExp × BExp)) (h : assembly
     rw [this.1, this.2]
     cases acs <;> cases draw <;> cases other <;> cases cond <;> simp_all
 
+/-- what a well-formed class table (`Bridge.C04.class_table_ok`, extracted from *all* classes deriving from
+`BaseMaskFunc`) means: each of the 14 generators of the property is a class of the module whose `mask_func` returns
+only through the reshape wrapper, and any other class that does not is one of the declared out-of-scope classes -/
+theorem class_table_sound (tbl : List (String × Bool)) (h : C04Tables.classTableOk tbl = true) :
+    (∀ g ∈ Gen.all, tbl.lookup (g.name ++ "MaskFunc") = some true) ∧
+    (∀ r ∈ tbl, r.2 = false → r.1 ∈ C04Tables.outOfScope) := by
+  unfold C04Tables.classTableOk at h
+  simp only [Bool.and_eq_true, List.all_eq_true] at h
+  constructor
+  · intro g hg
+    have := h.1 (g.name ++ "MaskFunc") (by unfold C04Tables.inScope; exact List.mem_map.mpr ⟨g, hg, rfl⟩)
+    simpa using this
+  · intro r hr hf
+    have := h.2 r hr
+    simp only [hf, Bool.false_or] at this
+    exact List.contains_iff_mem.mp this
+
+/-- a well-formed state table has no write outside construction -/
+theorem state_table_sound (tbl : List C04Tables.StateRow) (h : C04Tables.stateTableOk tbl = true) :
+    ∀ r ∈ tbl, r.2.2.2 = true := by
+  unfold C04Tables.stateTableOk at h
+  exact List.all_eq_true.mp h
+
 /-! ## rank checks -/
 
 theorem call_rejects_low_rank (g : Gen) (m : Mode) (shape : List Nat) (spec : AcsSpec) (racs : Bool)
@@ -421,6 +448,24 @@ theorem circus_disc_returns_iff (rows cols : Nat) (mask : List Bool) (thr : List
     | some r => rfl
     | none => exact absurd hc (h.mp hr t ht)
 
+/-- **the search returns promptly**: whenever fewer than 10/11 of the cells are sampled
+(`11·|mask| < 10·rows·cols` — every CIRCUS pattern with acceleration ≥ 1.1 on the grid) the loop has returned by
+the first radius whose disc covers the whole grid (`radius² ≥ (rows/2)² + (cols/2)²`, i.e. after at most
+`10·√((rows/2)² + (cols/2)²)` increments of `eps = 0.1`); `n` = how many radii that takes.  The converse
+boundary is `C06.circus_disc_full_never_returns`. -/
+theorem circus_disc_returns_promptly (rows cols : Nat) (mask : List Bool) (thr : List Int) (n : Nat)
+    (hlen : mask.length = rows * cols) (hfar : ∃ t ∈ thr.take n, farSq rows cols ≤ t)
+    (hsparse : 11 * mask.count true < 10 * (rows * cols)) :
+    ∃ r, circusDisc rows cols mask thr = some r ∧ circusDisc rows cols mask (thr.take n) = some r := by
+  have h := circusDisc_returns_of_sparse rows cols mask (thr.take n) hlen hfar hsparse
+  obtain ⟨r, hr⟩ := Option.isSome_iff_exists.mp h
+  exact ⟨r, by rw [circusDisc_take rows cols mask thr n h, hr], hr⟩
+
+/-- the hypotheses are satisfiable: a 3 × 3 grid with one sampled cell, radii² 1, 1, 2 (`farSq = 2`) -/
+example : ∃ r, circusDisc 3 3 [false, false, false, false, true, false, false, false, false] [1, 1, 2, 3] = some r ∧
+    circusDisc 3 3 [false, false, false, false, true, false, false, false, false] ([1, 1, 2, 3].take 3) = some r :=
+  circus_disc_returns_promptly 3 3 _ _ 3 rfl ⟨2, by decide, by decide⟩ (by decide)
+
 /-! ## interiors that are pure integer logic: k-t grid helpers, CIRCUS ordering, `_poisson` active lists -/
 
 /-- `linear_indices_to_2d_coordinates` inverts the trajectory index on the grid (1-based `x ∈ [1, row]`) -/
@@ -507,6 +552,252 @@ theorem poisson_guard_bound_partial (nx ny : Nat) (den r : Int) (hden : 0 < den)
     (poissonRun true nx ny den r { mask := List.replicate (nx * ny) false, actives := [p0] } evs).actives.length
       ≤ nx * ny + 1 :=
   poissonRun_guard_invariant nx ny den r hden evs _ (by simp) (by simp)
+
+/-! ## `_poisson.pyx`: the executable kernel model (`Model/C04Poisson.lean`, run by the driver and compared bit for
+bit with the real kernel: mask, number of `rand()` calls)
+
+`kernel env fuel` is one call `poisson(nx, ny, max_attempts, mask, radius_x, radius_y, seed)`: `env.draws` is the
+libc stream after `srand(seed)`, `env.trig` the `cos`/`sin` values, everything else is computed (exact IEEE
+arithmetic on dyadic rationals).  All statements are for every grid size, every radius table, every `rand()` stream
+and every trig table — in particular they do not depend on the `cos`/`sin` values being right. -/
+
+section PoissonKernel
+open DirectVerif.C04Poisson
+
+/-- the invariant of `while num_actives > 0` holds of the state in which a run stops, however it stops -/
+theorem poisson_kernel_invariant (env : Env) (fuel : Nat) (st0 : St) (h0 : init env = .ok st0) :
+    Inv env (kernel env fuel).st := by
+  unfold kernel; rw [h0]; exact (run_inv env fuel st0 (init_inv env st0 h0)).1
+
+/-- **the mask is a boolean array of the requested shape**: `nx·ny` entries (row-major `nx × ny`), of type `Bool` -/
+theorem poisson_mask_shape (env : Env) (fuel : Nat) (st0 : St) (h0 : init env = .ok st0) :
+    (kernel env fuel).st.mask.size = env.nx * env.ny :=
+  (poisson_kernel_invariant env fuel st0 h0).maskSize
+
+/-- **every written cell is inside the grid**: a candidate that passes `qx >= 0 and qx < nx and qy >= 0 and qy < ny`
+is stored at `(int(qx), int(qy))` with `int(qx) < nx`, `int(qy) < ny` (for every float value of the candidate) … -/
+theorem poisson_written_cell_in_grid (env : Env) (px py r1 : Nat) (c s : Dy)
+    (h : (attempt env px py r1 c s).inGrid = true) :
+    (attempt env px py r1 c s).cx < env.nx ∧ (attempt env px py r1 c s).cy < env.ny :=
+  attempt_cell_in_grid env px py r1 c s h
+
+/-- … so that no run ever stops for a write to `mask` or a read of `radius_x/radius_y` outside the `nx × ny`
+arrays (every active point stays on the grid) -/
+theorem poisson_grid_accesses_in_bounds (env : Env) (fuel : Nat) :
+    (kernel env fuel).halt ≠ some .cellOutOfGrid ∧ (kernel env fuel).halt ≠ some .readOutOfGrid := by
+  unfold kernel
+  cases h0 : init env with
+  | error h =>
+    rcases init_ok_or_harness env h h0 with e | e <;> subst e <;> simp
+  | ok st0 =>
+    have := run_inv env fuel st0 (init_inv env st0 h0)
+    exact ⟨this.2.1, this.2.2.1⟩
+
+/-- the active points themselves are on the grid at every stop -/
+theorem poisson_actives_on_grid (env : Env) (fuel : Nat) (st0 : St) (h0 : init env = .ok st0)
+    (j : Nat) (hj : j < (kernel env fuel).st.acts.size) :
+    (kernel env fuel).st.acts[j].1 < env.nx ∧ (kernel env fuel).st.acts[j].2 < env.ny :=
+  (poisson_kernel_invariant env fuel st0 h0).actsGrid j hj
+
+/-- **active-list accounting**: `num_actives = 1 + accepted − removed`, the number of sampled cells is
+`accepted − stale` (`stale` = candidates accepted into a cell that was already sampled), every outer iteration
+accepts or removes, and `num_actives` never exceeds the capacity `nx·ny` of `pxs`/`pys` while the run goes on -/
+theorem poisson_active_list_accounting (env : Env) (fuel : Nat) (st0 : St) (h0 : init env = .ok st0) :
+    let st := (kernel env fuel).st
+    st.acts.size + st.removals = st.accepts + 1 ∧ st.mask.count true + st.stale = st.accepts ∧
+    st.iters = st.accepts + st.removals ∧ st.acts.size ≤ st.maxna ∧ st.maxna ≤ max 1 (env.nx * env.ny) := by
+  have h := poisson_kernel_invariant env fuel st0 h0
+  exact ⟨h.actives, h.sampled, h.iters, h.maxLe, h.maxCap⟩
+
+/-- **when the active lists overrun** (known finding `generator-crashes/VariableDensityPoisson/active-list-overrun`):
+the run stops with `overrun` exactly at an accepted candidate with `num_actives = nx·ny`; at that moment
+`sampled + stale = nx·ny + removed − 1`, i.e. the stale acceptances make up for every removal and every cell
+that is still unsampled, minus the one slot the (never sampled) initial point occupies -/
+theorem poisson_overrun_condition (env : Env) (fuel : Nat) (st0 : St) (h0 : init env = .ok st0)
+    (hcap : 1 ≤ env.nx * env.ny) (h : (kernel env fuel).halt = some .overrun) :
+    let st := (kernel env fuel).st
+    st.acts.size = env.nx * env.ny ∧ st.mask.count true + st.stale + 1 = env.nx * env.ny + st.removals ∧
+    (env.nx * env.ny - st.mask.count true) + st.removals ≤ st.stale + 1 := by
+  have hi := poisson_kernel_invariant env fuel st0 h0
+  have hge : env.nx * env.ny ≤ (kernel env fuel).st.acts.size := by
+    unfold kernel at h ⊢; rw [h0] at h ⊢
+    exact (run_inv env fuel st0 (init_inv env st0 h0)).2.2.2.2.2.1 h
+  have h1 := hi.actives; have h2 := hi.sampled; have h4 := hi.maxLe; have h5 := hi.maxCap
+  have hc : (kernel env fuel).st.mask.count true ≤ env.nx * env.ny := by
+    rw [← hi.maskSize]; exact Array.count_le_size
+  refine ⟨by omega, by omega, by omega⟩
+
+/-- one outer iteration stops with `overrun` iff a candidate was accepted while `num_actives = capacity`
+(nothing else is checked before the write `pxs[num_actives] = …`) -/
+theorem poisson_overrun_iff (env : Env) (st : St) (i : Nat) (o : Option (Nat × Nat)) (pos att : Nat) :
+    bookkeep env st i o pos att = .error .overrun ↔ o.isSome = true ∧ env.nx * env.ny ≤ st.acts.size :=
+  bookkeep_overrun_iff env st i o pos att
+
+/-- the lists are one slot short even when every accepted candidate samples a *new* cell: on a 1 × 2 grid with
+radius 1 (recorded stream, `srand(233)`) the first candidate fills `pxs[1]`, the second is accepted with
+`num_actives = 2 = nx·ny` … -/
+def overrunFreshEnv : Env :=
+  { nx := 1, ny := 2, maxAttempts := 1, rx := #[⟨1, 0⟩, ⟨1, 0⟩], ry := #[⟨1, 0⟩, ⟨1, 0⟩],
+    draws := #[2119191493, 490991862, 1073400032, 143212267, 230293729, 2000467226, 206076552, 461922739],
+    trig := #[(⟨11304517, -24⟩, ⟨7038722625899749, -53⟩, ⟨2810072161451269, -52⟩),
+              (⟨5668645, -22⟩, ⟨489840355056453, -51⟩, ⟨8791503923649091, -53⟩)] }
+
+theorem poisson_current_overruns_fresh :
+    (kernel overrunFreshEnv 10).halt = some .overrun ∧ (kernel overrunFreshEnv 10).st.stale = 0 ∧
+    (kernel overrunFreshEnv 10).st.removals = 0 := by decide +kernel
+
+/-- … and with stale acceptances also after removals: 2 × 2 grid, radius 1, `max_attempts = 10`, `srand(272)` —
+4 candidates accepted of which 2 into sampled cells, 1 removal, then the 19th attempt succeeds and `pxs[4]` is written -/
+def overrunStaleEnv : Env :=
+  { nx := 2, ny := 2, maxAttempts := 10, rx := #[⟨1, 0⟩, ⟨1, 0⟩, ⟨1, 0⟩, ⟨1, 0⟩], ry := #[⟨1, 0⟩, ⟨1, 0⟩, ⟨1, 0⟩, ⟨1, 0⟩],
+    draws := #[989179677, 1796212363, 639933494, 1174831724, 68468417, 1154851320, 367063606, 468517877, 1209813154,
+      1072413098, 89939010, 2983851, 257327310, 1168910928, 379258639, 1028723530, 1835872748, 718019376, 38654896,
+      2093711427, 274612389, 1535066740, 1322673789, 816706788, 1960667519, 1752444601, 2103020991, 286662702,
+      222572669, 582944072, 1084297580, 1211752346, 231672787, 1724231074, 239100422, 300141204, 731598746,
+      606164028, 768659081, 1941411901, 1678577127, 858598092, 1944395752, 1935904437, 2027509020, 176170743],
+    trig := #[(⟨6721871, -25⟩, ⟨2206767167244393, -51⟩, ⟨7169376126566315, -55⟩),
+      (⟨11499159, -23⟩, ⟨223670472767585, -50⟩, ⟨8827673287439329, -53⟩),
+      (⟨13160489, -22⟩, ⟨-9007131191165135, -53⟩, ⟨4482047069350211, -60⟩),
+      (⟨2343511, -28⟩, ⟨9006856004183195, -53⟩, ⟨1258146905591693, -57⟩),
+      (⟨14344695, -22⟩, ⟨-8660267787174661, -53⟩, ⟨-1237881281568591, -52⟩),
+      (⟨12624337, -22⟩, ⟨-8929178536298315, -53⟩, ⟨4731864886517655, -55⟩),
+      (⟨8811423, -22⟩, ⟨-2276761051849829, -52⟩, ⟨121428544109859, -47⟩),
+      (⟨3211713, -19⟩, ⟨8895954171432107, -53⟩, ⟨-352813494851243, -51⟩),
+      (⟨2354763, -19⟩, ⟨-3949468655387785, -54⟩, ⟨-4394031825943971, -52⟩),
+      (⟨2505625, -20⟩, ⟨-6577913789646005, -53⟩, ⟨6153103980154375, -53⟩),
+      (⟨10752865, -21⟩, ⟨907854808504273, -51⟩, ⟨-8242719985624733, -53⟩),
+      (⟨5462755, -23⟩, ⟨7163878159724009, -53⟩, ⟨2729857511264829, -52⟩),
+      (⟨13306333, -22⟩, ⟨-9002903867943397, -53⟩, ⟨-8900393687738761, -58⟩),
+      (⟨11372211, -24⟩, ⟨3507994400709795, -52⟩, ⟨2824249438034891, -52⟩),
+      (⟨14733147, -24⟩, ⟨5751683554094929, -53⟩, ⟨6931650215364347, -53⟩),
+      (⟨4716433, -21⟩, ⟨-88294797585051, -47⟩, ⟨1753520388556439, -51⟩),
+      (⟨1317073, -19⟩, ⟨-7280848283586647, -53⟩, ⟨2651362229402089, -52⟩),
+      (⟨11878561, -21⟩, ⟨3667877329939957, -52⟩, ⟨-163328243789589, -48⟩),
+      (⟨8647761, -24⟩, ⟨7836917355935067, -53⟩, ⟨4439860895439225, -53⟩)] }
+
+theorem poisson_current_overruns_stale :
+    (kernel overrunStaleEnv 50).halt = some .overrun ∧ (kernel overrunStaleEnv 50).st.stale = 2 ∧
+    (kernel overrunStaleEnv 50).st.removals = 1 ∧ (kernel overrunStaleEnv 50).st.acts.size = 4 := by decide +kernel
+
+/-- **the attempt loop terminates**: `while not done and k < max_attempts` makes at most `k` further attempts
+(exactly `k` when none succeeds), each consuming two `rand()` values -/
+theorem poisson_attempt_loop_terminates (env : Env) (mask : Array Bool) (px py k pos att : Nat)
+    (o : Option (Nat × Nat)) (pos' att' : Nat) (h : attempts env mask px py k pos att = .ok (o, pos', att')) :
+    att ≤ att' ∧ att' ≤ att + k ∧ pos' = pos + 2 * (att' - att) ∧ (o = none → att' = att + k) := by
+  obtain ⟨a, b, c, _, e⟩ := attempts_spec env mask px py k pos att o pos' att' h
+  exact ⟨a, b, c, e⟩
+
+/-- **how long the outer loop can run**: every iteration accepts or removes, removals never exceed acceptances
+by more than one, acceptances are sampled cells plus stale ones — so
+`iterations ≤ 2·(sampled + stale) + 1 ≤ 2·(nx·ny + stale) + 1` -/
+theorem poisson_iterations_bound (env : Env) (fuel : Nat) (st0 : St) (h0 : init env = .ok st0) :
+    let st := (kernel env fuel).st
+    st.iters ≤ 2 * (st.mask.count true + st.stale) + 1 ∧ st.iters ≤ 2 * (env.nx * env.ny + st.stale) + 1 := by
+  have hi := poisson_kernel_invariant env fuel st0 h0
+  have h1 := hi.actives; have h2 := hi.sampled; have h3 := hi.iters
+  have hc : (kernel env fuel).st.mask.count true ≤ env.nx * env.ny := by
+    rw [← hi.maskSize]; exact Array.count_le_size
+  refine ⟨by omega, by omega⟩
+
+/-- **the kernel returns, or accepts into sampled cells again and again**: with more than `2·(nx·ny + S) + 1`
+iterations of fuel the run has ended (`num_actives = 0`, or one of the stops above) unless more than `S`
+candidates were accepted into cells that were already sampled.
+`_partial`: full statement "the kernel always returns" is false for adversarial streams (stale acceptance and
+removal can alternate for ever) and holds with probability one for the real generator; what bounds `stale` is
+float geometry (`C04.poisson_large_radius_safe`: none when every radius is at least √2 pixels). -/
+theorem poisson_returns_or_stale_partial (env : Env) (fuel S : Nat) (st0 : St) (h0 : init env = .ok st0)
+    (hf : 2 * (env.nx * env.ny + S) + 1 < fuel) :
+    (kernel env fuel).halt ≠ some .outOfFuel ∨ S < (kernel env fuel).st.stale := by
+  by_cases hh : (kernel env fuel).halt = some .outOfFuel
+  · right
+    have hb := (poisson_iterations_bound env fuel st0 h0).2
+    have hi0 := init_inv env st0 h0
+    have : (kernel env fuel).st.iters = st0.iters + fuel := by
+      unfold kernel at hh ⊢; rw [h0] at hh ⊢
+      exact (run_inv env fuel st0 hi0).2.2.2.2.1 hh
+    have hi00 : st0.iters = 0 := by
+      unfold init at h0
+      split at h0
+      · dsimp only at h0
+        split at h0
+        · cases h0
+        · simp only [Except.ok.injEq] at h0; subst h0; rfl
+      · cases h0
+    omega
+  · exact Or.inl hh
+
+/-- `rand()` calls of a run: two for the initial point, one per outer iteration, two per attempt; at most
+`max_attempts` attempts per iteration -/
+theorem poisson_draws_bound (env : Env) (fuel : Nat) (st0 : St) (h0 : init env = .ok st0) :
+    let st := (kernel env fuel).st
+    st.pos = 2 + st.iters + 2 * st.att ∧ st.att ≤ st.iters * env.maxAttempts ∧
+    st.pos ≤ 2 + st.iters * (1 + 2 * env.maxAttempts) := by
+  have hi := poisson_kernel_invariant env fuel st0 h0
+  have h1 := hi.draws; have h2 := hi.attLe
+  refine ⟨h1, h2, ?_⟩
+  rw [Nat.mul_add, Nat.mul_one, h1]
+  have : 2 * (kernel env fuel).st.att ≤ (kernel env fuel).st.iters * (2 * env.maxAttempts) := by
+    rw [Nat.mul_comm 2 env.maxAttempts, ← Nat.mul_assoc]; omega
+  omega
+
+/-- a run that ends normally ends with an empty active list -/
+theorem poisson_done_no_actives (env : Env) (fuel : Nat) (h : (kernel env fuel).halt = none) :
+    (kernel env fuel).st.acts.size = 0 := by
+  unfold kernel at h ⊢
+  cases h0 : init env with
+  | error e => rw [h0] at h; cases h
+  | ok st0 => rw [h0] at h; exact (run_inv env fuel st0 (init_inv env st0 h0)).2.2.2.1 h
+
+/-- `randint(upper)` for `rand() = RAND_MAX` is `upper` itself, one past the documented range `{0, …, upper−1}`
+(observation: probability 2⁻³¹ per draw; the model stops with `badIndex`, the compiled kernel would read
+`pxs[num_actives]`) -/
+theorem poisson_randint_rand_max : randint randMax 7 = 7 ∧ randint (randMax - 1) 7 = 6 ∧ randint 0 7 = 0 := by
+  decide +kernel
+
+/-- non-vacuity: the hypotheses `init env = .ok _` hold, and a recorded run that ends normally -/
+example : (init overrunStaleEnv).toOption.isSome = true := by decide +kernel
+example : (kernel { overrunStaleEnv with maxAttempts := 0 } 50).halt = none ∧
+    (kernel { overrunStaleEnv with maxAttempts := 0 } 50).st.removals = 1 := by decide +kernel
+
+/-- `VariableDensityPoissonMaskFunc.mask_func` around the kernel (`assemblePoisson`, what the driver runs for the
+generator-level comparison): without `crop_corner` it is the generic assembly `kernel mask ∨ ACS disc` of
+`assemble`, so `shape_contract`, `per_frame_pattern` and `C06.acs_subset_mask` apply to it … -/
+theorem poisson_assemble_eq_assemble (m : Mode) (shape : List Nat) (radius : Int) (ks : List (List Bool)) :
+    assemblePoisson m shape radius none ks = assemble .poisson m shape (.disc radius) false ks := by
+  unfold assemblePoisson assemble
+  cases callGuard m shape.length with
+  | error e => rfl
+  | ok u =>
+    simp only [Gen.isKt, Bool.false_eq_true, if_false, Gen.family]
+    unfold assembleFrames
+    simp only [acsFrame, Option.isSome_some, List.all_eq_true, implies_true, if_true, Option.getD_some, frameData,
+      framePattern, Bool.false_eq_true, if_false, List.length_map]
+    have e : (poissonFrame (rowsOf shape) (colsOf shape) radius none) =
+        fun p => orL p (centeredDisk (rowsOf shape) (colsOf shape) radius) := by
+      funext p; rfl
+    rw [e]
+
+/-- … and with `crop_corner` (the ACS disc is cropped as well) the documented shape still holds -/
+theorem poisson_assemble_shape_contract (m : Mode) (shape : List Nat) (radius : Int) (crop : Option (List Bool))
+    (ks : List (List Bool)) (t : Tensor Bool) (h : assemblePoisson m shape radius crop ks = .ok t) :
+    t.shape = maskShape m shape ∧ ∀ coil, Broadcasts t.shape (coil :: shape) := by
+  unfold assemblePoisson at h
+  cases hc : callGuard m shape.length with
+  | error e => rw [hc] at h; cases h
+  | ok u =>
+    rw [hc] at h
+    simp only at h
+    unfold reshapeAndAddCoil at h
+    split at h
+    · cases h
+    · rename_i hr
+      split at h
+      · cases h
+      · simp only [Except.ok.injEq] at h
+        subst h
+        exact ⟨rfl, fun coil => mask_shape_broadcasts m shape coil (by omega)⟩
+
+end PoissonKernel
 
 /-! ## non-vacuity / regression examples -/
 
